@@ -297,6 +297,14 @@ const SEEDS: &[&str] = &[
     "from t | select {a, b} | derive {z = s\"COALESCE({a}, {b})\"} | filter z > 0",
     "from t | take 5 | derive x = a | take 3 | derive y = x + 1 | filter y > 2 | select {y}",
     "from t | group {a} (sort b | take 2) | group {a} (aggregate {s = sum b}) | join u (==a)",
+    // joined sub-pipelines without an alias: the outer pipeline names the inner table
+    "from t | join (from u | derive {d = d + 1}) (==a) | select {t.b, u.d}",
+    "from t | join side:left (from u | derive {d = -d}) (==a) | filter u.d > 1",
+    "from t | join (from u | filter d > 1) (==a) | select {u.a, u.d}",
+    "from t | join (from u | sort d | take 3) (==a) | derive {x = u.d + t.b}",
+    "from t | join (from u | derive {d2 = d + 1}) (==a) | select {t.a, u.d, u.d2}",
+    "from t | join (from u | select {a, d = d + 1}) (==a) | select {t.a, u.d}",
+    "from t | append (from u | derive {a = a + 1}) | select {a}",
     // a joined sub-pipeline that exposes the name `a` twice (recorded finding)
     "let q = (from t | select {a, b})\nfrom q | join u (==a) | join r=(from u | join l=q (u.d == l.b)) true",
     "let q = (from t | select {a, b})\nfrom t | join r=(from u | join l=q (u.d == l.b)) (t.a == r.d) | select {t.a, r.d, r.b}",
